@@ -298,7 +298,8 @@ func (c *Ctx) WatermarkConversions(prop string, s *Slashing, kind string) {
 			}
 		}
 	}
-	floorW, floorN := 2, 3
+	// one narrowing per watermark field is the principled minimum (the entry's re-assignment after the checks is redundant)
+	floorW, floorN := 2, 2
 	if kind == "prop" {
 		floorW, floorN = 1, 1
 	}
